@@ -573,6 +573,47 @@ def parseFloatLit (O : FloatOracle) (ty : FTy) (text : List Char) : Option O.F :
     else some (O.round ty (O.ofInt (if neg then -(n : Int) else n)))
   | _ => none
 
+/-! ### `builtin.FloatData` (helper attribute holding a Python float; FIXED code: a non-finite value
+travels as the hexadecimal bit pattern of the binary64, as in `Printer.print_float`) -/
+
+/-- `mantissa + ".0e" + exponent` where `mantissa, _, exponent = text.partition("e")` -/
+def dot0 (s : List Char) : List Char :=
+  match s.span (· ≠ 'e') with
+  | (pre, 'e' :: post) => pre ++ '.' :: '0' :: 'e' :: post
+  | (pre, _) => pre ++ ['.', '0', 'e']
+
+/-- the text `FloatData.print_parameter` derives from `f"{x}"` for a finite value -/
+def fdText (s : List Char) : List Char := if s.contains '.' then s else dot0 s
+
+/-- The answers of the oracle that `FloatData.print_parameter` looks at. -/
+structure FloatDataObs where
+  nonFinite : Bool          -- `not math.isfinite(x)`
+  bits : List UInt8         -- `struct.pack("<d", x)`
+  srepr : List Char         -- `f"{x}"`
+deriving Repr
+
+/-- `FloatData.print_parameter` between the angle brackets -/
+def printFloatDataObs (o : FloatDataObs) : List Char :=
+  if o.nonFinite then '0' :: 'x' :: toHexU (unpackLEU o.bits) else fdText o.srepr
+
+def printFloatData (O : FloatOracle) (x : O.F) : List Char :=
+  printFloatDataObs ⟨O.isNan x || O.isInf x, O.pack .f64 x, O.repr x⟩
+
+/-- `FloatData.parse_parameter` between the angle brackets: `parse_number`, a hexadecimal literal
+(not negated) is the bit pattern of a binary64 and must fit 64 bits; other integers go through
+`float(int)` (`OverflowError` for integers beyond the double range is not modelled: the printer
+never emits a decimal integer). -/
+def parseFloatData (O : FloatOracle) (text : List Char) : Option O.F :=
+  let neg := (stripMinus text).1
+  match lexNumber (stripMinus text).2 with
+  | some (.float ft, []) =>
+    let v := O.parse ft
+    some (if neg then O.neg v else v)
+  | some (.int n hex, []) =>
+    if hex && !neg then (toBytesLE? 8 n).map fun bs => O.unpack .f64 bs
+    else some (O.ofInt (if neg then -(n : Int) else n))
+  | _ => none
+
 /-! ## 5. line protocol -/
 
 def hexToBytes? (s : String) : Option (List UInt8) :=
@@ -684,6 +725,10 @@ def lineStep (_ : Unit) (line : String) : Unit × String :=
        | some ty, some packed, some s5, some s9, some s17, some srepr =>
          String.ofList (printFloatObs ⟨ty, nanInf = "1", packed, s5, eq5 = "1", s9, s17, srepr⟩)
        | _, _, _, _, _, _ => "bad-op")
+    | ["floatdata", nonFinite, bits, srepr] =>
+      (match hexToBytes? bits, hexToText? srepr with
+       | some bits, some srepr => String.ofList (printFloatDataObs ⟨nonFinite = "1", bits, srepr⟩)
+       | _, _ => "bad-op")
     | ["tobytes", size, n] =>
       (match size.toNat?, n.toNat? with
        | some size, some n => (match toBytesLE? size n with | some bs => bytesToHex bs | none => "raise OverflowError")
